@@ -784,5 +784,5 @@ var Prop = &kernel.Property{
 	Stub:        []string{"upstream resolver (answer sections from the scenario's zone)", "client sockets", "query log / statistics (recorders)", "wall clock (synctest)"},
 	Assumptions: []string{"urlfilter's matching of one rule set against one host name / IP literal is trusted", "CNAME targets are matched as type CNAME, addresses as A/AAAA, hints as HTTPS for $dnstype purposes (documented behaviour of response filtering)", "while the file of a list cannot be read, and during an overlapping rule change, the statement does not say which of the configurations accepted so far is in force: only what all of them (with and without the unreadable list) agree on is asserted"},
 	FaultKinds:  []string{"live_rule_change", "live_flag_change", "protection_pause", "clock_advance", "list_file_fault", "concurrent_rule_change"},
-	ProbeNames:  []string{"blocked_by_response", "delivered_unchanged", "offender_CNAME", "offender_A", "offender_AAAA", "offender_HTTPS", "offender_not_first", "record_allowlisted", "protection_off_query", "filtering_off_query", "qname_allowlisted_query", "blocked_at_request_stage", "aaaa_disabled_query", "ipv6_hints_stripped", "negative_upstream_answer", "pause_deadline_crossed", "first_query_after_pause", "blocked_first_after_pause", "query_during_pause", "query_straddles_deadline", "op_skipped_no_pause", "fault_healed", "query_in_doubt_agree", "query_in_doubt_disagree", "doubt_all_agree_blocked", "doubt_window_closed", "par_query", "sched_steps", "sched_switches", "op_skipped_fault_active", "op_skipped_no_fault", "op_skipped_no_scheduler"},
+	ProbeNames:  []string{"blocked_by_response", "delivered_unchanged", "offender_CNAME", "offender_A", "offender_AAAA", "offender_HTTPS", "offender_not_first", "record_allowlisted", "protection_off_query", "filtering_off_query", "qname_allowlisted_query", "blocked_at_request_stage", "aaaa_disabled_query", "ipv6_hints_stripped", "negative_upstream_answer", "pause_deadline_crossed", "first_query_after_pause", "blocked_first_after_pause", "query_during_pause", "query_straddles_deadline", "op_skipped_no_pause", "fault_healed", "query_in_doubt_agree", "query_in_doubt_disagree", "doubt_all_agree_blocked", "doubt_window_closed", "par_query", "sched_steps", "sched_switches", "op_skipped_fault_active"},
 }
